@@ -824,6 +824,27 @@ func eqValue(a, b Value, t types.Type) *Term {
 		return And(cs...)
 	case *StrV:
 		y := b.(*StrV)
+		if lx, ok1 := x.Len.ConstInt(); ok1 {
+			if ly, ok2 := y.Len.ConstInt(); ok2 {
+				if lx != ly {
+					return False()
+				}
+				if lx == 0 {
+					return True()
+				}
+				if lx <= len(x.B) && lx <= len(y.B) && lx <= 4096 {
+					var px, py *Term
+					for i := 0; i < lx; i++ {
+						if px == nil {
+							px, py = x.B[i], y.B[i]
+						} else {
+							px, py = Concat(x.B[i], px), Concat(y.B[i], py)
+						}
+					}
+					return Eq(px, py)
+				}
+			}
+		}
 		n := len(x.B)
 		if len(y.B) < n {
 			n = len(y.B)
@@ -903,6 +924,80 @@ func eqValue(a, b Value, t types.Type) *Term {
 
 // ---- functional access into value trees ----
 
+// possibleConsts enumerates the values an index term can take when it is built
+// from constants by ite and addition (e.g. the end offset of a file after a
+// few conditional appends). ok=false when the term is not of that shape or has
+// more than 48 values.
+var pcMemo = map[int][]int{}
+
+func possibleConsts(t *Term) ([]int, bool) {
+	if v, ok := pcMemo[t.ID]; ok {
+		return v, v != nil
+	}
+	var out []int
+	ok := true
+	switch t.Op {
+	case OpConst:
+		c, isI := t.ConstInt()
+		if !isI {
+			ok = false
+		}
+		out = []int{c}
+	case OpIte:
+		a, ok1 := possibleConsts(t.Args[1])
+		b, ok2 := possibleConsts(t.Args[2])
+		ok = ok1 && ok2
+		out = unionInts(a, b)
+	case OpAdd:
+		a, ok1 := possibleConsts(t.Args[0])
+		b, ok2 := possibleConsts(t.Args[1])
+		ok = ok1 && ok2
+		if ok {
+			seen := map[int]bool{}
+			for _, x := range a {
+				for _, y := range b {
+					v := x + y
+					if t.W < 63 {
+						v &= 1<<uint(t.W) - 1
+					}
+					if !seen[v] {
+						seen[v] = true
+						out = append(out, v)
+					}
+				}
+			}
+		}
+	case OpZExt:
+		out, ok = possibleConsts(t.Args[0])
+	default:
+		ok = false
+	}
+	if !ok || len(out) > 48 {
+		pcMemo[t.ID] = nil
+		return nil, false
+	}
+	pcMemo[t.ID] = out
+	return out, true
+}
+
+func unionInts(a, b []int) []int {
+	seen := map[int]bool{}
+	var out []int
+	for _, x := range a {
+		if !seen[x] {
+			seen[x] = true
+			out = append(out, x)
+		}
+	}
+	for _, x := range b {
+		if !seen[x] {
+			seen[x] = true
+			out = append(out, x)
+		}
+	}
+	return out
+}
+
 // readPath reads the sub-value at path inside root.
 func readPath(root Value, path []Step) Value {
 	v := root
@@ -928,9 +1023,25 @@ func readPath(root Value, path []Step) Value {
 				v = a.E[k]
 				continue
 			}
-			// symbolic index: ite chain over all elements (of the remaining path)
+			// symbolic index: ite chain over the candidate elements (of the remaining path)
 			rest := path[pi+1:]
 			var acc Value
+			if cands, ok := possibleConsts(s.Idx); ok {
+				for _, k := range cands {
+					if k < 0 || k >= len(a.E) {
+						continue
+					}
+					ev := readPath(a.E[k], rest)
+					if acc == nil {
+						acc = ev
+					} else {
+						acc = mergeV(Eq(s.Idx, BVu(uint64(k), 64)), ev, acc)
+					}
+				}
+				if acc != nil {
+					return acc
+				}
+			}
 			for k := len(a.E) - 1; k >= 0; k-- {
 				ev := readPath(a.E[k], rest)
 				if acc == nil {
@@ -977,6 +1088,14 @@ func writePath(root Value, path []Step, nv Value) Value {
 				return root // infeasible (bounds obligation already emitted)
 			}
 			out[k] = writePath(a.E[k], path[1:], nv)
+			return &ArrayV{E: out, T: a.T}
+		}
+		if cands, ok := possibleConsts(s.Idx); ok {
+			for _, k := range cands {
+				if k >= 0 && k < len(out) {
+					out[k] = mergeV(Eq(s.Idx, BVu(uint64(k), 64)), writePath(a.E[k], path[1:], nv), a.E[k])
+				}
+			}
 			return &ArrayV{E: out, T: a.T}
 		}
 		for k := range out {
